@@ -207,3 +207,36 @@ pub fn spelling_programs() -> Vec<String> {
     out.push("local a = 1\rlocal b = 2\r".to_owned());
     out
 }
+
+fn raw_tokens(src: &str) -> Option<Vec<String>> {
+    let l = lex(src.as_bytes(), Mode::Luau).ok()?;
+    Some(l.tokens.iter().filter(|t| !matches!(t.tok, Tok::Eof)).map(|t| src[t.start..t.end].to_owned()).collect())
+}
+
+/// layouts with optional spaces removed: each single removable space, and all of them at once (greedy, left to right).
+/// A space is removable when the token sequence read by the reference lexer stays the same.
+pub fn despaced(template: &str) -> Vec<String> {
+    let base = match raw_tokens(template) {
+        Some(b) => b,
+        None => return vec![],
+    };
+    let mut out = Vec::new();
+    let positions: Vec<usize> = template.char_indices().filter(|(_, c)| *c == ' ').map(|(i, _)| i).collect();
+    for p in &positions {
+        let mut s = template.to_owned();
+        s.remove(*p);
+        if raw_tokens(&s).as_ref() == Some(&base) {
+            out.push(s);
+        }
+    }
+    let mut all = template.to_owned();
+    for p in positions.iter().rev() {
+        let mut s = all.clone();
+        s.remove(*p);
+        if raw_tokens(&s).as_ref() == Some(&base) {
+            all = s;
+        }
+    }
+    out.push(all);
+    out
+}
